@@ -216,10 +216,17 @@ def r10_refusal_reasons(prog, ctx, g, f, width, signed):
         l_v, r_v = (conv.const_of(lit.lhs), conv.const_of(lit.rhs)) if lit.kind in ("eq", "lt") else (None, None)
         ok = False
         why = None
+        req0 = cfg.required_literals(b)
+        under_errno = any(q is not None and q.kind == "eq" and not q.pol and "__errno_location" in q.atom and 0 in (conv.const_of(q.lhs), conv.const_of(q.rhs)) for q in req0) or \
+            any(q is not None and q.kind == "truth" and q.pol and "__errno_location" in q.atom for q in req0)
         if lit.kind == "eq" and lit.pol and endp in (l_t, r_t):
             other = r_t if l_t == endp else l_t
             ok = other == text
             why = None if ok else "the end pointer is compared with `%s`, the text converted is `%s`" % (other, text)
+        elif under_errno and (val in (l_t, r_t) or (lit.kind == "truth" and lit.atom == val)):
+            # any test of the result behind `errno != 0`: strtol()/strtoul() report an error only for ERANGE and for "no conversion", both
+            # documented reasons - whatever the result then is, the refusal concerns no literal the type can hold
+            ok = True
         elif lit.kind == "eq" and lit.pol and "__errno_location" in lit.atom:
             ok = conv.ERANGE in (l_v, r_v)
             why = None if ok else "errno is compared with %s" % (l_v if l_v is not None else r_v)
